@@ -3,7 +3,7 @@
 d="$1"; shift
 ids="$@"; [ -z "$ids" ] && ids="C01 C02 C03 C04 C05 C06 C07 C08 C09 C10 C11 C12 C13 C14 C15 C16 C17 C18 C19 C20"
 for id in $ids; do
-  VERIF_REPO=$d python3 check.py $id --tier quick > /tmp/ben_$id.log 2>&1; rc=$?
-  if [ $rc -ne 0 ]; then echo "== $id rc=$rc"; grep -E "^(VIOLATION|INCONCLUSIVE|  key=)" /tmp/ben_$id.log | head -6 | cut -c1-250; fi
+  VERIF_REPO=$d python3 check.py $id --tier quick > /tmp/ben_$$_$id.log 2>&1; rc=$?
+  if [ $rc -ne 0 ]; then echo "== $id rc=$rc"; grep -E "^(VIOLATION|INCONCLUSIVE|  key=)" /tmp/ben_$$_$id.log | head -6 | cut -c1-250; fi
 done
 echo "done $d"
